@@ -1,7 +1,8 @@
 ------------------------------ MODULE AnalysisDb ------------------------------
 (* The analysis database of emmylua_code_analysis as "facts owned by files + merge rule" (C08, C09, C10, C11).
 
-   A workspace is three paths /ws/a.lua, /ws/b.lua, /ws/c.lua whose content is drawn from a small alphabet of
+   A workspace is three paths /ws/a.lua, /ws/b.lua, /ws/c.lua (a fourth, /ws/d.lua, in the require-cycle
+   configurations of C11) whose content is drawn from a small alphabet of
    REAL Lua snippets (Text).  Each snippet is abstracted to the facts it contributes (types it declares, with
    which description, members, globals, requires, file-level diagnostic switches).
 
@@ -99,32 +100,40 @@ Text(c) ==
     [] c = "ClsOp2"   -> "---@class (partial) Foo\n---@operator add(Foo): string\n"
     [] c = "UseOp"    -> "---@type Foo\nlocal f\nlocal s = f + f\nlocal k = f(1)\n"
     \* members of require cycles with (possibly conflicting) contributions (C11 after seeded review)
+    \* a partial class whose INHERITANCE edge lives in only one of its declaring files, the base class with a
+    \* field, and a user of the inherited field (C10 after seeded review)
+    [] c = "Base"     -> "---@class Base\n---@field hp integer\n"
+    [] c = "FooInh"   -> "---@class (partial) Foo: Base\n"
+    [] c = "UseHp"    -> "---@type Foo\nlocal f\nlocal h = f.hp\n"
     [] c = "ClsTab"   -> "---@class Tab\nTab = {}\n"
     [] c = "UseCy"    -> "local t = Tab.x\nlocal g = GG\n---@type Foo\nlocal f\nlocal v = f.bar\n"
     [] IsCy(c)        -> CyBody(CyKind(c)) \o "\nlocal other = require(\"" \o CyTarget(c) \o "\")\nreturn {}\n"
     [] OTHER          -> ""
 AllContents == {"ClsDoc", "ClsDoc2", "ClsPlain", "ClsField", "GInt", "GStr", "ReqB", "Mod", "Alias", "Enum",
                 "DiagOff", "Undef", "UseFoo", "ClsSub", "ReqA",
-                "GenBox", "BoxExt", "GenAlias", "UseBox", "ClsOp", "ClsOp2", "UseOp", "ClsTab", "UseCy"} \cup CyAll
-TypeNames == {"Foo", "Id", "Color", "Bar", "Box", "Opt", "Tab"}
+                "GenBox", "BoxExt", "GenAlias", "UseBox", "ClsOp", "ClsOp2", "UseOp", "ClsTab", "UseCy",
+                "Base", "FooInh", "UseHp"} \cup CyAll
+TypeNames == {"Foo", "Id", "Color", "Bar", "Box", "Opt", "Tab", "Base"}
 GlobalNames == {"GG", "Tab"}
 
 CyFld(c) == IsCy(c) /\ CyKind(c) \in {"FldInt", "FldStr"}
 CyGlob(c) == IsCy(c) /\ CyKind(c) \in {"GInt", "GStr"}
 CyMem(c) == IsCy(c) /\ CyKind(c) \in {"MemInt", "MemStr"}
-Decl(c)  == CASE c \in {"ClsDoc", "ClsDoc2", "ClsPlain", "ClsField", "ClsOp", "ClsOp2"} -> {"Foo"}
+Decl(c)  == CASE c \in {"ClsDoc", "ClsDoc2", "ClsPlain", "ClsField", "ClsOp", "ClsOp2", "FooInh"} -> {"Foo"}
+              [] c = "Base" -> {"Base"}
               [] c = "Alias" -> {"Id"} [] c = "Enum" -> {"Color"} [] c = "ClsSub" -> {"Bar"}
               [] c \in {"GenBox", "BoxExt"} -> {"Box"} [] c = "GenAlias" -> {"Opt"} [] c = "ClsTab" -> {"Tab"}
               [] CyFld(c) -> {"Foo"} [] OTHER -> {}
-Sup(c)   == IF c = "ClsSub" THEN {<<"Bar", "Foo">>} ELSE {}
+Sup(c)   == CASE c = "ClsSub" -> {<<"Bar", "Foo">>} [] c = "FooInh" -> {<<"Foo", "Base">>} [] OTHER -> {}
 Desc(c)  == CASE c = "ClsDoc" -> "Hello doc" [] c = "ClsDoc2" -> "Other doc" [] OTHER -> ""
 Mem(c)   == CASE c = "ClsField" -> {<<"Foo", "bar">>}
               [] c = "Enum" -> {<<"Color", "Red">>, <<"Color", "Green">>}
               [] c = "GenBox" -> {<<"Box", "value">>} [] c = "BoxExt" -> {<<"Box", "label">>}
+              [] c = "Base" -> {<<"Base", "hp">>}
               [] CyFld(c) -> {<<"Foo", "bar">>} [] OTHER -> {}
 \* `Tab.x = v`: a non-declaration member; its owner is resolved by the Lua pipeline (phase 2)
 LMem(c)  == IF CyMem(c) THEN {<<"Tab", "x">>} ELSE {}
-NMem(c)  == CASE c \in {"ClsField", "Mod", "GenBox", "BoxExt"} -> 1 [] c = "Enum" -> 2    \* entries of `members`
+NMem(c)  == CASE c \in {"ClsField", "Mod", "GenBox", "BoxExt", "Base"} -> 1 [] c = "Enum" -> 2    \* entries of `members`
               [] CyFld(c) \/ CyMem(c) -> 1 [] OTHER -> 0
 Glob(c)  == CASE c \in {"GInt", "GStr"} \/ CyGlob(c) -> {"GG"} [] c = "ClsTab" -> {"Tab"} [] OTHER -> {}
 Req(c)   == CASE c = "ReqB" -> {"b"} [] c = "ReqA" -> {"a"} [] IsCy(c) -> {CyTarget(c)} [] OTHER -> {}
@@ -137,6 +146,7 @@ Opr(c)   == CASE c = "ClsOp" -> {<<"Foo", "add", "integer">>, <<"Foo", "call", "
 MetaMethods == {"add", "call"}
 Uses(c)  == CASE c = "UseFoo" -> {"Foo", "GG"} [] c = "ReqB" -> {"mod:b"} [] c = "ReqA" -> {"mod:a"} [] c = "ClsSub" -> {"Foo"}
               [] c = "UseBox" -> {"Box", "Opt"} [] c = "UseOp" -> {"Foo"} [] c = "UseCy" -> {"Tab", "GG", "Foo"}
+              [] c = "FooInh" -> {"Base"} [] c = "UseHp" -> {"Foo", "Base"}
               [] IsCy(c) -> {"mod:" \o CyTarget(c)} \cup (IF CyMem(c) THEN {"Tab"} ELSE {}) [] OTHER -> {}
 Partial(t) == t \in {"Foo", "Box"}   \* Id, Color, Opt, Tab are not partial: declaring them twice is already a diagnostic
 
@@ -342,6 +352,10 @@ Sizes(d, fs, is) ==
       operator_files |-> Cardinality({o[4] : o \in d.ops})]
 
 \* ---- observables the harness compares with the real queries ----
+\* t and everything reachable from it over the super edges of the index (C10 after seeded review)
+RECURSIVE AncClose(_, _)
+AncClose(d, S) == LET T == S \cup {x[2] : x \in {y \in d.supers : y[1] \in S}} IN IF T = S THEN S ELSE AncClose(d, T)
+Ancestors(d, t) == IF d.typeLocs[t] = {} THEN {} ELSE AncClose(d, {t})
 Obs(d, fs, is) ==
   [desc |-> [t \in TypeNames |-> IF d.typeLocs[t] = {} THEN "<no-type>"
                                   ELSE IF d.slot[t] = "none" THEN "" ELSE d.slot[t]],
@@ -357,6 +371,9 @@ Obs(d, fs, is) ==
                     idseq == SetToSeq({o[4] : o \in os})
                 IN [k \in 1..Len(idseq) |-> <<(CHOOSE o \in os : o[4] = idseq[k])[3], PathOfId(is, idseq[k])>>]]],
    supers |-> [t \in TypeNames |-> {x[2] : x \in {y \in d.supers : y[1] = t}}],
+   \* member lookup on an instance of t (find_members): own members and those of every declared ancestor
+   inherit |-> [t \in TypeNames |-> {<<m[2], PathOfId(is, m[3])>> :
+                                       m \in {x \in d.members \cup d.lmem : x[1] \in Ancestors(d, t)}}],
    modules |-> [r \in PathSet |-> LET tg == ModTarget(d, is, r) IN
                                    IF tg = {} THEN "<none>" ELSE PathOfId(is, CHOOSE i \in tg : TRUE)]]
 
@@ -488,6 +505,11 @@ ReindexIsIdeal == Last.op \in {"reindex", "load"} => DevNow = {}
 KF_DepEdge == \E e \in db.deps : e[2] \notin IdOf(files, ids)          \* edge to a removed / unset file
 NoLeak == LET s == Sizes(db, files, ids) i == Sizes(IdealNow, files, ids) IN
           \A k \in DOMAIN s : s[k] <= i[k] \/ (k \in {"dependency_files", "dependency_items"} /\ KF_DepEdge)
+
+\* C10: super edges and inherited members are owned by the declaring file: after any step they are exactly the
+\* ideal ones (so the `supers` / `inherit` expectation of a removal step IS the fresh one)
+InheritIdeal == /\ Obs(db, files, ids).supers = Obs(IdealNow, files, ids).supers
+                /\ Obs(db, files, ids).inherit = Obs(IdealNow, files, ids).inherit
 
 \* the property slot is single valued: the last analysed contributor wins and removing any contributor drops it
 KF_Slot == "slot" \in DevNow
